@@ -467,6 +467,10 @@ func TestVerifC23(t *testing.T) {
 	wg.Wait()
 	c23CloseDuringOutage(rep, 2)
 	c23CloseDuringOutage(rep, 5)
+	if ops, out := c23LostAck(rep); ops != nil {
+		allOps = append(allOps, ops)
+		allImpl = append(allImpl, out)
+	}
 	rep.vfCompareSegments("queuesvc", allOps, allImpl)
 }
 
@@ -583,6 +587,67 @@ func c23CloseDuringOutage(rep *vfReport, nReq int) {
 	rep.Case("close-during-outage", true)
 	rep.CountN("close-during-outage:accepted", accepted)
 	rep.CountN("close-during-outage:left-unapplied-by-shutdown(outside-property)", accepted-len(appliedStmts))
+}
+
+// c23LostAck: Execute applies the batch but reports raft's "leadership lost while committing
+// log" (an error that does not say whether the entry was committed). runQueue retries on every
+// error, so the batch reaches the database a second time. The property text does not promise
+// exactly-once, so this is recorded as an observation (and an ASSUMPTION of the order/
+// contiguity theorems: lostAcks = 0), not as a failure; the trace is diffed with the model's
+// `execfailcommitted` step so that the model keeps describing what the code does.
+func c23LostAck(rep *vfReport) (ops, out []string) {
+	var mu sync.Mutex
+	var appliedBatches [][]int
+	calls := 0
+	m := &MockStore{leaderAddr: "127.0.0.1:4002"}
+	c := &mockClusterService{}
+	m.executeFn = func(er *command.ExecuteRequest) ([]*command.ExecuteQueryResponse, uint64, error) {
+		mu.Lock()
+		defer mu.Unlock()
+		calls++
+		var ids []int
+		for _, st := range er.Request.Statements {
+			if mm := c23ValRe.FindStringSubmatch(st.Sql); mm != nil {
+				v, _ := strconv.Atoi(mm[1])
+				ids = append(ids, v)
+			}
+		}
+		appliedBatches = append(appliedBatches, ids) // the entry is committed and applied ...
+		if calls == 1 {
+			return nil, 0, errors.New("leadership lost while committing log") // ... but the caller is told otherwise
+		}
+		return nil, 0, nil
+	}
+	svc := New("127.0.0.1:0", m, c, proxy.New(m, c), nil)
+	svc.DefaultQueueCap, svc.DefaultQueueBatchSz, svc.DefaultQueueTimeout = 16, 4, 2*time.Millisecond
+	svc.logger.SetOutput(io.Discard)
+	if err := svc.Start(); err != nil {
+		rep.Note("lost-ack scenario: start failed: %v", err)
+		return nil, nil
+	}
+	defer svc.Close()
+	host := fmt.Sprintf("http://%s", svc.Addr().String())
+	resp, err := http.Post(host+"/db/execute?queue&wait&timeout=20s", "application/json", strings.NewReader(`["INSERT INTO t(v) VALUES(7)","INSERT INTO t(v) VALUES(8)"]`))
+	if err != nil {
+		rep.Note("lost-ack scenario: request failed: %v", err)
+		return nil, nil
+	}
+	resp.Body.Close()
+	time.Sleep(20 * time.Millisecond)
+	mu.Lock()
+	defer mu.Unlock()
+	var ab []string
+	for _, b := range appliedBatches {
+		ab = append(ab, c23Ints(b))
+	}
+	if len(appliedBatches) > 1 {
+		rep.Note("observation (assumption of the exactly-once reading, not judged): Execute applied the batch but returned \"leadership lost while committing log\"; runQueue retried and the batch was applied %d times: %s", len(appliedBatches), strings.Join(ab, "|"))
+		rep.Count("lost-ack:batch-applied-more-than-once")
+	}
+	rep.Case("lost-ack", true)
+	ops = []string{"new 16 4 2000000", "write 7,8 0", "recv", "fire", "send", "take", "execfailcommitted", "execok", "applied", "closedflush", "failed"}
+	out = []string{"ok", "1", "ok", "ok", "ok", "ok", "ok", "ok", strings.Join(ab, "|"), "0", fmt.Sprint(calls - 1)}
+	return
 }
 
 // ---- live: real store.Store behind the real http.Service ------------------------------------
